@@ -1305,12 +1305,24 @@ func TestC15(t *testing.T) {
 		in.Tags = append(in.Tags, "corpus")
 		ins = append(ins, in)
 	}
-	rng := NewRand(Seed())
+	// NewRand(n) and NewRand(n+1) are the same splitmix stream shifted by one draw; forking once
+	// scrambles the state so that neighbouring seeds give unrelated case sets.
+	rng := NewRand(Seed()).Fork()
 	for i := 0; i < n; i++ {
 		ins = append(ins, gen(rng.Fork()))
 	}
 	for k := range ins {
 		in := &ins[k]
+		// one-off jobs fire once: a slot is fired at most once per case
+		var fires []Fire
+		seen := map[uint64]bool{}
+		for _, f := range in.Fires {
+			if !seen[f.Slot] {
+				seen[f.Slot] = true
+				fires = append(fires, f)
+			}
+		}
+		in.Fires = fires
 		var obs observed
 		synctest.Test(t, func(t *testing.T) {
 			obs = runCase(t, in)
